@@ -41,7 +41,7 @@ def gen_cases(chk, binp):
 
     def add(**kw):
         c = dict(id="l%d" % len(cases), bin=binp, kind="start", phase="steps", atStep=1, delayUs=0, nsteps=3,
-                 stepMs=120, handMs=150, injectA="", injectB="", bStepMs=0, thirdAfterMs=0, retention=-1, backdateH=0)
+                 stepMs=120, handMs=150, injectA="", injectB="", bStepMs=0, thirdAfterMs=0, retention=-1, backdateH=0, bVia="")
         c.update(kw)
         cases.append(c)
 
@@ -55,6 +55,19 @@ def gen_cases(chk, binp):
         for ret, hours in combos * (1 if quick else 3):
             add(kind=kind, phase="steps", nsteps=2, atStep=2, stepMs=400, handMs=30, delayUs=rng.randint(20000, 90000),
                 retention=ret, backdateH=hours, tag="quiet-longer-than-retention")
+    # the SAME file under another spelling of its path (another socket name, another history directory; same inode):
+    # second start / retry through a symlinked DAGs directory, a symlink to the file, a hard link to the file
+    for via in ("dirlink", "filelink", "hardlink"):
+        for kind in ("start", "retry"):
+            for _ in range(1 if quick else 3):
+                ns = 2
+                add(kind=kind, phase="steps", nsteps=ns, atStep=rng.randint(1, ns), stepMs=200, handMs=60, delayUs=rng.randint(0, 120000),
+                    bVia=via, tag="other-spelling")
+        add(kind="start", phase="handler", nsteps=2, stepMs=40, handMs=200, delayUs=rng.randint(0, 100000), bVia=via, tag="other-spelling")
+    # ... after the first run has released the lock and is closing its listener: through another spelling the second
+    # start's probe looks at ANOTHER socket and passes; the first run executes nothing any more (C16_lock_exclusive)
+    add(kind="start", phase="shutdown", nsteps=2, stepMs=30, handMs=40, delayUs=rng.randint(0, 60000),
+        injectA="unlinkat:delay_enter=300000", bVia="dirlink", tag="other-spelling-closing")
     # the lock holder held between taking the lock and its probe
     for _ in range(2):
         add(phase="prelisten", nsteps=2, delayUs=rng.randint(20000, 120000), injectA="flock:delay_exit=%d:when=1" % rng.randint(150000, 300000), tag="lock-window")
@@ -209,9 +222,10 @@ def can_open(r, ag):
 def driver_line(c, r):
     acts = abstract_trace(c, r)
     bsteps = 1 if c["kind"] == "retry" else c["nsteps"]
-    cfg = "0,0,%d,1,%d;0,0,%d,1,%d" % (c["nsteps"], can_open(r, "A"), bsteps, can_open(r, "B"))
+    # same file (lock key 0) for all; the socket name is 0 for the plain path and 1 for the other spelling
+    cfg = "0,0,%d,1,%d,0;0,0,%d,1,%d,%d" % (c["nsteps"], can_open(r, "A"), bsteps, can_open(r, "B"), 1 if c.get("bVia") else 0)
     if "C" in r["exit"]:
-        cfg += ";0,0,%d,1,%d" % (c["nsteps"], can_open(r, "C"))
+        cfg += ";0,0,%d,1,%d,0" % (c["nsteps"], can_open(r, "C"))
     return "%s agents %s tr %s" % (c["id"], cfg, " ".join("%d:%s" % (AG[a], x) for _, a, x in acts)), acts
 
 
@@ -278,7 +292,8 @@ def monitor(chk, c, r):
             norm = lambda f: f.replace("_c.dat", ".dat")
             gone = sorted({norm(f) for f in r.get("histBeforeB") or []} - {norm(f) for f in r.get("histAfterB") or []})
             lost = sorted(q for q, ok in (r.get("storeByReq") or {}).items() if not ok)
-            if gone or lost or any(e["ev"] == "histunlink" and e["res"] == "0" for e in evs):
+            passed = any(e["ev"] == "bind" for e in evs)    # (a command that wrongly ran compacts its OWN file at the end)
+            if gone or lost or (not passed and any(e["ev"] == "histunlink" and e["res"] == "0" for e in evs)):
                 out.append(("C16:active-run-second-%s-removed-history" % k,
                             "a refused %s removed history files %s (retention %s, files last written %sh ago); runs no longer found by the store: %s" % (
                                 k, gone, c.get("retention"), c.get("backdateH"), lost)))
@@ -477,7 +492,7 @@ def run(chk, replay):
                 witness_both = True
         outcome[oc] = outcome.get(oc, 0) + 1
         if c["phase"] != "after":
-            chk.nontrivial.add((c["kind"], c["phase"], pp, oc, c["delayUs"] // 10000))
+            chk.nontrivial.add((c["kind"], c["phase"], c.get("bVia", ""), pp, oc, c["delayUs"] // 10000))
         if len(chk.samples) < 6 and (len(chk.samples) < 3 or vs):
             chk.samples.append({"case": {k: v for k, v in c.items() if k != "bin"}, "probe_position": pp, "outcome": oc,
                                 "model": d and {k: v["pc"] for k, v in d["ag"].items()}, "monitor": [s for s, _ in vs]})
